@@ -239,6 +239,75 @@ def loop_inventory(ctx):
     return found
 
 
+# statements of EmailContent.iterate_supported_attachments that run OUTSIDE a catch-all handler, with the reason why
+# they cannot let a foreign exception escape.  Anything else that appears there fails the obligation (closed).
+ATTACHMENT_EXPOSED = {
+    "extractor = get_extractor(attachment.filename)":
+        "get_extractor raises only ExtractionFileFormatNotSupportedError (C07_else_not_supported + C07's hostile-name corpus)",
+    "file_type = MIME_TYPE_MAPPING.get(attachment.mime_type)": "dict.get on a str key",
+    "extractor = get_extractor(f'attachment.{file_type}')":
+        "get_extractor raises only ExtractionFileFormatNotSupportedError (a Fam exception: allowed to escape)",
+    "attachment.data.seek(0)": "io.BytesIO owned by the EmailAttachment; raises only when closed (fuzzed: e-mails with "
+                               "attachments of every text type, consumed twice)",
+}
+
+
+def attachment_path_inventory(ctx):
+    """X-inventory of the e-mail attachment path (the skeleton analysis covers the registered extractors, read_file,
+    _process_archive_entry and cli.main; this function is a method of a result class)."""
+    import ast
+    import inspect
+    from sharepoint2text.parsing.extractors import data_types
+    try:
+        fn = data_types.EmailContent.iterate_supported_attachments
+        tree = ast.parse(__import__("textwrap").dedent(inspect.getsource(fn))).body[0]
+    except Exception as e:  # noqa
+        ctx.obligation("attachments:inventory", False, repr(e))
+        return
+    exposed = []
+
+    def catch_all(h):
+        t = h.type
+        names = [t] if not isinstance(t, ast.Tuple) else list(t.elts)
+        return t is None or any(isinstance(n, ast.Name) and n.id in ("Exception", "BaseException") for n in names)
+
+    def harmless(stmt):
+        if isinstance(stmt, (ast.Import, ast.ImportFrom, ast.Continue, ast.Break, ast.Pass)):
+            return True
+        if isinstance(stmt, ast.Raise) and stmt.exc is None:
+            return True          # bare re-raise inside `except ExtractionFileEncryptedError`
+        if isinstance(stmt, ast.Expr) and isinstance(stmt.value, ast.Constant):
+            return True
+        if (isinstance(stmt, ast.Expr) and isinstance(stmt.value, ast.Call) and isinstance(stmt.value.func, ast.Attribute)
+                and isinstance(stmt.value.func.value, ast.Name) and stmt.value.func.value.id == "logger"
+                and all(isinstance(a, (ast.Constant, ast.Name, ast.Attribute)) for a in stmt.value.args)):
+            return True
+        return not any(isinstance(n, (ast.Call, ast.Subscript, ast.BinOp, ast.Yield, ast.YieldFrom, ast.Await)) for n in ast.walk(stmt))
+
+    def walk(stmts, guarded):
+        for st in stmts:
+            if isinstance(st, ast.Try):
+                g = guarded or any(catch_all(h) for h in st.handlers)
+                walk(st.body, g)
+                for h in st.handlers:
+                    walk(h.body, guarded)
+                walk(st.orelse, guarded)
+                walk(st.finalbody, guarded)
+            elif isinstance(st, (ast.For, ast.While, ast.If, ast.With)):
+                hdr = st.iter if isinstance(st, ast.For) else (st.test if isinstance(st, (ast.While, ast.If)) else None)
+                if hdr is not None and not guarded and any(isinstance(n, ast.Call) for n in ast.walk(hdr)):
+                    exposed.append(ast.unparse(hdr))
+                walk(st.body, guarded)
+                walk(getattr(st, "orelse", []), guarded)
+            elif not guarded and not harmless(st):
+                exposed.append(ast.unparse(st))
+    walk(tree.body, False)
+    unknown = [e for e in exposed if e not in ATTACHMENT_EXPOSED]
+    ctx.obligation("attachments:statements-outside-a-catch-all-are-the-justified-ones", not unknown and bool(exposed),
+                   f"unjustified statements outside a catch-all handler in iterate_supported_attachments: {unknown}")
+    ctx.extra["attachment_exposed_statements"] = {e: ATTACHMENT_EXPOSED.get(e, "UNJUSTIFIED") for e in exposed}
+
+
 def special_inputs(slow=False):
     """Well-formed files of unusual content (built with the writers available in /venv)."""
     import datetime
@@ -834,6 +903,7 @@ def run(ctx):
     gen_skeletons(ctx)
     cli_paths(ctx)
     loop_inventory(ctx)
+    attachment_path_inventory(ctx)
     fuzz(ctx)
     ctx.prove("C01/Props.v", ["C01/ExnProofs.vo", "C01/LoopsProofs.vo", "C01/Corr.vo"], expected=[
         "C01_esc_sound", "C01_contained_sound", "C01_iter_records_terminates", "C01_jpeg_dims_terminates",
